@@ -326,9 +326,10 @@ def call_arg(call, pos=None, kw=None):
 # obligations / report
 # ----------------------------------------------------------------------------
 class Obligation:
-    __slots__ = ("rule", "construct", "ok", "fact", "oracle", "where", "witness", "stmt")
+    __slots__ = ("rule", "construct", "ok", "fact", "oracle", "where", "witness", "stmt", "complete")
 
-    def __init__(self, rule, construct, ok, fact, oracle, where, witness, stmt):
+    def __init__(self, rule, construct, ok, fact, oracle, where, witness, stmt, complete=False):
+        self.complete = complete        # decided by an evaluation that reads every statement or refuses: no structure can be mis-read
         self.rule, self.construct, self.ok = rule, construct, ok
         self.fact, self.oracle, self.where, self.witness, self.stmt = fact, oracle, where, witness, stmt
 
@@ -400,7 +401,7 @@ class Ctx:
         if text not in self.assumptions:
             self.assumptions.append(text)
 
-    def ob(self, construct, ok, fact, oracle, node=None, func=None, witness=None, rule=None):
+    def ob(self, construct, ok, fact, oracle, node=None, func=None, witness=None, rule=None, complete=False):
         rid = rule or self._rule
         where = ""
         stmt = ""
@@ -412,7 +413,7 @@ class Ctx:
                 stmt = _short(header_text(st))
         elif func is not None:
             where = func.where()
-        o = Obligation(rid, construct, bool(ok), _short(str(fact), 400), _short(str(oracle), 300), where, witness, stmt)
+        o = Obligation(rid, construct, bool(ok), _short(str(fact), 400), _short(str(oracle), 300), where, witness, stmt, complete)
         self.obligations.append(o)
         r = self.rules.setdefault(rid, {"id": rid, "template": "", "what": "", "instances": 0, "refuted": 0})
         r["instances"] += 1
